@@ -441,3 +441,8 @@ Proof. vm_compute. split; reflexivity. Qed.
 Example parse_json_form_strict_agree_ex :
   parse_json_raw lax_demo_blank <> None /\ parse_json_form lax_demo_blank = parse_json_form_strict lax_demo_blank.
 Proof. vm_compute. split; [discriminate | reflexivity]. Qed.
+
+(* the skipper's fuel is adequate (re-exported from Codec/JsonLax.v for the property file) *)
+Lemma lax_skip_total : forall after stk s, lax_go after stk s <> None.
+Proof. exact lax_go_total. Qed.
+Print Assumptions lax_skip_total.
